@@ -7,6 +7,8 @@ PID = "C03"
 LEAN_MODULE = "NanoVerif.Props.C03"
 OBLIGATIONS = [
     "NanoVerif.C03.preorder_glyph_count",
+    "NanoVerif.C03.walk_matches_colr",
+    "NanoVerif.C03.nested_order_wrong",
     "NanoVerif.C03.flat_layers_in_order",
     "NanoVerif.C03.placed_by_composition",
     "NanoVerif.C03.inline_only_identity",
